@@ -232,3 +232,17 @@ func vh_icmp4_other() {
 	vassert(len(env.e.echoRequests) == 0 && len(env.link.Sent) == 0, "only echo requests are answered with echo replies")
 	vreach("other")
 }
+
+// C07: arbitrary ICMPv4 messages (all types, incl. destination unreachable with an embedded
+// header) neither panic nor emit anything but echo handling
+func vh_icmp4_arbitrary() {
+	env := vhNewEnv()
+	n := []int{0, 3, 6, 8, 12, 36}[vnChoice("len", 6)]
+	b := vnBytes("icmp", n)
+	if n >= 36 {
+		// embedded IPv4 header: keep IHL symbolic, addresses ours (otherwise dropped early)
+		copy(b[8+12:8+16], []byte(vhLocal))
+	}
+	env.e.handleICMP(&env.r, vhPkt(b, vnChoice("split", 2)*8))
+	vreach("icmp")
+}
